@@ -35,7 +35,8 @@ class Rec:
 def scalar(tag, classes=SCALARS):
     vs = V.variants()['Value']
     d = BitVec(tag + '_disc', 64)
-    fields = {'Null': [], 'Bool': [Bool(tag + '_b')], 'Int': [BitVec(tag + '_i', 64)], 'Float': [FP(tag + '_f', F64)],
+    # floats are introduced through their bit pattern so that NaN sign/payload bits are visible to `to_bits` (z3's FP sort has one NaN)
+    fields = {'Null': [], 'Bool': [Bool(tag + '_b')], 'Int': [BitVec(tag + '_i', 64)], 'Float': [z3.fpBVToFP(BitVec(tag + '_fbits', 64), F64)],
               'Str': [box(V.StrTok(BitVec(tag + '_s', 16)))], 'Timestamp': [BitVec(tag + '_t', 64)], 'Duration': [BitVec(tag + '_d', 64)]}
     return Enum('Value', d, {k: fields[k] for k in classes}), Or(*[d == vs.index(c) for c in classes])
 
